@@ -5,3 +5,5 @@ package service
 import "io"
 
 func verifStopped(io.Closer) {}
+
+func verifAckWindow(io.Closer, string) {}
